@@ -153,10 +153,10 @@ def c_c11(recs):
 
 
 def c_c12(recs):
-    i = _first(recs, lambda r: len(r["ev"]) >= 1 and r["ev"][0][0] == 1)
+    i = _first(recs, lambda r: r["c"][0] == 0)
     if i is None:
         return None
-    recs[i]["ev"][0][2] ^= 1          # group_no
+    recs[i]["c"] = [1, []]            # pretend the allocating parser accepted what the TLF rules reject
     return i
 
 
@@ -169,10 +169,10 @@ def c_c13(recs):
 
 
 def c_c18(recs):
-    i = _first(recs, lambda r: len(r["obs"]) >= 2 and len(r["obs"][-1]) >= 2)
+    i = _first(recs, lambda r: len(r["obs"]) >= 1)
     if i is None:
         return None
-    recs[i]["obs"][-1][-1] ^= 1
+    recs[i]["obs"][-1][0] ^= 1        # ok <-> out-of-memory
     return i
 
 
